@@ -60,13 +60,87 @@ def interrupted(ctx):
         if len(nodes) < 2:
             continue
         k = rng.randrange(0, len(nodes))
-        run_, outcome = camp.one(nodes, edges, rng.choice([1, 2, 3]), rng.choice([0, None]), rng.choice(["default", "random", "cheap"]),
-                                 [], "Exception", detsched.random_chooser(rng, 0.2), "interrupt", interrupt_at=("join", k))
+        # ... also when the call that is in flight at the interrupt (or a later one) fails and exceeds the error limit
+        failing = rng.sample(nodes, rng.choice([0, 1, 1, 2]))
+        run_, outcome = camp.one(nodes, edges, rng.choice([1, 2, 3]), rng.choice([0, 0, 1, None]), rng.choice(["default", "random", "cheap"]),
+                                 failing, rng.choice(["Exception", "BaseException"]), detsched.random_chooser(rng, 0.2), "interrupt",
+                                 interrupt_at=("join", k))
         ctx.case(("c07-interrupt", tuple(nodes), tuple(edges), k))
     engine_corr.file_findings(ctx, camp, {"C07"})
 
 
+def observer_threads(ctx):
+    """run(progress=[...]) with a bundled display (it starts an update thread) next to a member whose __enter__ or __exit__
+    raises, or with a failing call: whatever run raises, the threads it started are gone when it returns"""
+    import contextlib
+    import io
+    import threading
+    import time
+    uberjob = core.use_repo()
+    import uberjob.progress as up
+
+    class BadObs(up.ProgressObserver):
+        def __init__(self, where):
+            self.where = where
+
+        def __enter__(self):
+            if self.where == "enter":
+                raise OSError("cannot open the progress log")
+
+        def __exit__(self, *a):
+            if self.where == "exit":
+                raise OSError("cannot close the progress log")
+
+        def increment_total(self, **k):
+            pass
+        increment_running = increment_completed = increment_failed = increment_total
+
+    class BadProgress(up.Progress):
+        def __init__(self, where):
+            self.where = where
+
+        def observer(self):
+            return BadObs(self.where)
+
+    def boom():
+        raise ValueError("call fails")
+    for where in ("enter", "exit", "none"):
+        for order in ("display-first", "display-last"):
+            for failing_call in (False, True):
+                plan = uberjob.Plan()
+                x = plan.call(boom) if failing_call else plan.call(lambda: 1)
+                members = [up.console_progress, BadProgress(where)]
+                if order == "display-last":
+                    members.reverse()
+                before = set(threading.enumerate())
+                with contextlib.redirect_stdout(io.StringIO()):
+                    try:
+                        uberjob.run(plan, output=x, progress=members, max_workers=2)
+                        oc = "returned"
+                    except BaseException as e:      # noqa
+                        oc = type(e).__name__
+                deadline = time.time() + 3
+                while time.time() < deadline:
+                    leaked = [t for t in threading.enumerate() if t not in before and t.is_alive()]
+                    if not leaked:
+                        break
+                    time.sleep(0.01)
+                ctx.case(("c07-observer-threads", where, order, failing_call))
+                ctx.count("observer_fault_outcome", "%s/%s" % (where, oc))
+                if leaked:
+                    ctx.fail("observer-thread-leak", "run(progress=[console display, member whose __%s__ raises]) (%s) ended with %s but left threads running: %r"
+                             % (where, order, oc, [t.name for t in leaked]), {"member_fails_in": where, "order": order, "failing_call": failing_call})
+                    for t in leaked:      # let the leaked update thread end so that the check itself can finish
+                        for obj in __import__("gc").get_objects():
+                            if isinstance(obj, up.ProgressObserver.__mro__[0]) and hasattr(obj, "_done_event"):
+                                try:
+                                    obj._done_event.set()
+                                except Exception:
+                                    pass
+
+
 def run(ctx):
+    observer_threads(ctx)
     engine_corr.campaign(ctx, {"C07"})
     literal_cycles(ctx)
     interrupted(ctx)
